@@ -23,8 +23,10 @@ TYPE_POOL = ["User", "Profile", "Settings", "Item", "Order", "Address", "Status"
              "Account", "Invoice", "Tag", "Window2", "Payload", "Summary"]
 CMD_POOL = ["get_user", "save", "list_items", "do_it", "fetch_all", "update_profile", "ping", "compute", "load", "sync_now",
             "open_file", "close_all", "rename_item", "delete_it", "export_data", "import_data", "refresh", "log_in"]
-# event names that give legal listener identifiers (the others are C01/C12 findings, not this property's)
-EVENT_POOL = ["user-updated", "progress", "item_added", "sync-done", "download_finished", "tick", "closed", "ready", "job-queued", "saved"]
+# every non-alphanumeric character of an event name becomes _ in the listener identifier
+# (C12-fix-dedup-and-identifier), so these are ordinary cases
+EVENT_POOL = ["user-updated", "progress", "item_added", "sync:done", "download/finished", "tick", "closed", "ready",
+              "job-queued", "saved"]
 FIELDS = projgen.FIELD_NAMES
 
 
@@ -64,7 +66,7 @@ def is_special_param(t):
 
 
 def is_channel(t):
-    return t["k"] == "path" and t["name"] == "Channel" and bool(t["args"]) and t["segs"] in ([], ["tauri", "ipc"])
+    return t["k"] == "path" and t["name"] == "Channel" and bool(t["args"]) and t["segs"] in ([], ["tauri", "ipc"], ["ipc"])
 
 
 def is_command(it):
@@ -129,12 +131,12 @@ def fn_events(it):
             pay = pay[1:].strip()
         if pay.endswith(".clone()"):
             pay = pay[:-len(".clone()")]
-        roots = []
+        roots, ty = [], pay
         if re.fullmatch(r"\w+", pay) and not pay[0].isdigit():
             ty = sym.get(pay, pay)
             if ty[:1].isupper() and ty not in BUILTIN and ty not in TYPE_SET_NAMES:
                 roots = [ty]
-        evs.append((s["emit"], roots))
+        evs.append((s["emit"], roots, ty))
     return evs
 
 
@@ -144,8 +146,8 @@ class Skeleton:
 
     def __init__(self, case):
         files = case["files"]
-        self.paths = sorted(files)
-        cmds, evs, tys = set(), set(), set()
+        self.paths = sorted(files, key=lambda q: q.split("/"))      # PathBuf order: component-wise
+        cmds, evs, tys, pays = set(), set(), set(), set()
         self.bodies = []          # body id -> (path, item)
         for rel in self.paths:
             for it in files[rel]:
@@ -156,14 +158,17 @@ class Skeleton:
                             tys.update(custom_names(p["ty"]["args"][0] if is_channel(p["ty"]) else p["ty"]))
                         if it.get("ret") is not None:
                             tys.update(custom_names(it["ret"]))
-                    for e, roots in fn_events(it):
+                    for e, roots, ty in fn_events(it):
                         evs.add(e)
                         tys.update(roots)
+                        pays.add(ty)
                 elif it["kind"] in ("struct", "enum") and is_serde(it):
                     tys.add(it["name"])
                     for f in it.get("fields", []):
                         tys.update(custom_names(f["ty"]))
         self.cmds, self.evs, self.tys = sorted(cmds), sorted(evs), sorted(tys)
+        self.pays = sorted(pays)                 # payload types as the event parser infers them
+        self.payid = {n: i for i, n in enumerate(self.pays)}
         self.pid = {n: i + 1 for i, n in enumerate(self.paths)}
         self.cid = {n: i + 1 for i, n in enumerate(self.cmds)}
         self.eid = {n: i + 1 for i, n in enumerate(self.evs)}
@@ -175,8 +180,8 @@ class Skeleton:
             for it in files[rel]:
                 k = it["kind"]
                 if k == "fn":
-                    evl = [[self.eid[e], [self.tid[r] for r in roots]] for e, roots in fn_events(it)]
-                    for e, _ in fn_events(it):
+                    evl = [[self.eid[e], [self.tid[r] for r in roots], self.payid[ty]] for e, roots, ty in fn_events(it)]
+                    for e, _, _ in fn_events(it):
                         self.ev_file.setdefault(e, rel)
                     if is_command(it):
                         roots, hp, hc = [], False, False
@@ -210,6 +215,16 @@ class Skeleton:
 
     def dup_names(self):
         return sorted(n for n, ds in self.defs.items() if len(ds) > 1)
+
+    def dup_events(self):
+        """event names emitted with two different payload types"""
+        seen = {}
+        for _, items in self.project:
+            for it in items:
+                evl = it[5] if it[0] == "cmd" else it[1] if it[0] == "fn" else []
+                for e, _, pay in evl:
+                    seen.setdefault(e, set()).add(pay)
+        return sorted(self.evs[e - 1] for e, ps in seen.items() if len(ps) > 1)
 
 
 # ----------------------------------------------------------------------------- generator
@@ -286,8 +301,8 @@ def gen_project(rng, shape=None):
     """shape: 'multi' (commands/events/types spread over all files), 'onefile' (a single file),
     'cmd1' (all commands and emit calls in one file, types elsewhere; chain-shaped type graph),
     'dup' (multi + one type name defined in two or three files)."""
-    shape = shape or rng.choice(["multi", "multi", "multi", "cmd1", "cmd1", "cmd1", "onefile", "onefile", "dup"])
-    nfiles = 1 if shape == "onefile" else rng.randint(2, 6)
+    shape = shape or rng.choice(["multi", "multi", "multi", "cmd1", "cmd1", "cmd1", "onefile", "onefile", "dup", "dupev"])
+    nfiles = 1 if shape == "onefile" else rng.randint(1, 4) if shape == "dupev" else rng.randint(2, 6)
     files = ["src/lib.rs"] + ["src/m%d.rs" % k for k in range(1, nfiles)]
     if nfiles > 2 and rng.random() < 0.5:
         files[-1] = "src/sub/deep/m%d.rs" % (nfiles - 1)
@@ -327,6 +342,10 @@ def gen_project(rng, shape=None):
     cmds = rng.sample(CMD_POOL, ncmds)
     cmd_files = [files[0]] if shape == "cmd1" else files
     evnames = rng.sample(EVENT_POOL, len(EVENT_POOL))
+    if shape == "dupev" or rng.random() < 0.15:
+        # one event name emitted at several sites (one listener is generated: the first site wins)
+        evnames = evnames[:4] + [evnames[0], evnames[1], evnames[0]]
+        rng.shuffle(evnames)
     roots_pool = [0] if chain else list(range(ntypes))
     # a few identifiers per file, reused by the functions of that file with different bindings
     file_vars = {f: rng.sample(VAR_POOL, 2) for f in files}
@@ -345,10 +364,10 @@ def gen_project(rng, shape=None):
             ret = P("Result", P("String"), P("String"))
         if rng.random() < 0.25:
             params.append({"name": "on_event", "ty": P("Channel", P(names[rng.choice(roots_pool)]),
-                                                       segs=rng.choice([[], ["tauri", "ipc"]]))})
+                                                       segs=rng.choice([[], ["tauri", "ipc"], ["ipc"]]))})
         if rng.random() < 0.3:
             params.insert(0, {"name": "app", "ty": P("AppHandle", segs=["tauri"])})
-        if rng.random() < 0.3 and evnames:
+        if rng.random() < (0.6 if shape == "dupev" else 0.3) and evnames:
             if not any(p["name"] == "app" for p in params):
                 params.insert(0, {"name": "app", "ty": P("AppHandle", segs=["tauri"])})
             if rng.random() < 0.8:
@@ -359,14 +378,14 @@ def gen_project(rng, shape=None):
         items[f].append({"kind": "fn", "name": c, "attrs": [rng.choice([["tauri", "command"], ["command"]])],
                          "async": rng.random() < 0.5, "vis": "pub", "params": params, "ret": ret, "body": body})
     # emit calls in ordinary functions (harvested as well); payload types become used types
-    for _ in range(rng.randint(0, 2)):
+    for _ in range(rng.randint(2, 4) if shape == "dupev" else rng.randint(0, 2)):
         if not evnames:
             break
         f = rng.choice(cmd_files)
         j = rng.randrange(ntypes)
         params, body = [{"name": "app", "ty": P("AppHandle", segs=["tauri"])}], []
         pay = bind_payload(rng, params, body, rng.choice(file_vars[f]), names[j])
-        fname = "notify_%s" % evnames[-1].replace("-", "_").replace(":", "_").replace("/", "_")
+        fname = "notify_%s_%d" % (evnames[-1].replace("-", "_").replace(":", "_").replace("/", "_"), len(evnames))
         body.append({"emit": evnames.pop(), "recv": "app", "payload": pay})
         items[f].append({"kind": "fn", "name": fname, "attrs": [], "async": False, "vis": "pub",
                          "params": params, "ret": None, "body": body})
@@ -515,7 +534,32 @@ def t_merge(rng, case):
     return c
 
 
-TRANSFORMS = {"reorder": t_reorder, "move": t_move, "split": t_split, "merge": t_merge}
+def t_reverse(rng, case):
+    """Reverse the item order of every file."""
+    c = copy.deepcopy(case)
+    for f in c["files"]:
+        c["files"][f].reverse()
+    return c
+
+
+def t_movedef(rng, case):
+    """For a type name defined in several files: move the definition of the first file (in path order)
+    into a new file whose path sorts last. Every file keeps at most one definition of the name."""
+    c = copy.deepcopy(case)
+    sk = Skeleton(c)
+    dn = sk.dup_names()
+    if not dn:
+        return c
+    n = dn[0]
+    rel = sorted((r for r, _ in sk.defs[n]), key=lambda q: q.split("/"))[0]
+    i = next(k for k, it in enumerate(c["files"][rel]) if it["kind"] in ("struct", "enum") and it["name"] == n and is_serde(it))
+    it = c["files"][rel].pop(i)
+    c["files"]["src/zz_moved.rs"] = [it]
+    return c
+
+
+TRANSFORMS = {"reorder": t_reorder, "move": t_move, "split": t_split, "merge": t_merge, "reverse": t_reverse,
+              "movedef": t_movedef}
 
 
 if __name__ == "__main__":
